@@ -316,22 +316,22 @@ func DecodeUTF16(b []byte) string {
 // ---- CONFIG_BYTES as DemonConfig() (payloads/Demon/src/Demon.c) reads them ----
 
 type DemonCfg struct {
-	Sleep, Jitter, Alloc, Exec                        uint32
-	Spawn64, Spawn32                                  string
-	Tech, Gadget, Stack, Load, Syscall, Amsi          uint32
-	KillDate                                          uint64
-	WorkingHours                                      uint32
-	Method                                            string
-	Rotation                                          uint32
-	Hosts                                             []string
-	Ports                                             []uint32
-	Secure                                            uint32
-	UserAgent                                         string
-	Headers, Uris                                     []string
-	ProxyEnabled                                      uint32
-	ProxyURL, ProxyUser, ProxyPass                    string
-	Pipe                                              string
-	Left                                              int
+	Sleep, Jitter, Alloc, Exec               uint32
+	Spawn64, Spawn32                         string
+	Tech, Gadget, Stack, Load, Syscall, Amsi uint32
+	KillDate                                 uint64
+	WorkingHours                             uint32
+	Method                                   string
+	Rotation                                 uint32
+	Hosts                                    []string
+	Ports                                    []uint32
+	Secure                                   uint32
+	UserAgent                                string
+	Headers, Uris                            []string
+	ProxyEnabled                             uint32
+	ProxyURL, ProxyUser, ProxyPass           string
+	Pipe                                     string
+	Left                                     int
 }
 
 func (r *Rd) WStr() string { return DecodeUTF16(r.Bytes()) }
